@@ -512,6 +512,46 @@ func (d *db) checkGroupBy(op simrt.Op) {
 	}
 	limit, offset, mode := I[1], I[2], I[3]
 	switch mode {
+	case 3: // the first child carries limit=: groups over the field's first rows, wherever their shards live
+		if limit <= 0 {
+			limit = 1
+		}
+		var rows []uint64
+		for r, m := range fs[0].bits {
+			if len(m) > 0 {
+				rows = append(rows, r)
+			}
+		}
+		sort.Slice(rows, func(i, j int) bool { return rows[i] < rows[j] })
+		if int(limit) < len(rows) {
+			rows = rows[:limit]
+		}
+		first := map[uint64]bool{}
+		for _, r := range rows {
+			first[r] = true
+		}
+		var w []gc
+		for _, g := range want {
+			if first[g.k[0]] {
+				w = append(w, g)
+			}
+		}
+		var cs []string
+		for l, f := range fs {
+			c := "Rows(field=" + f.name
+			if l == 0 {
+				c += fmt.Sprintf(", limit=%d", limit)
+			}
+			cs = append(cs, c+")")
+		}
+		got, q, ok := run(strings.Join(cs, ", "), "")
+		if !ok {
+			return
+		}
+		if !eq(got, w) {
+			d.fail("groupby-child-limit", "%s on node %d of %d = %v want %v (the first %d rows of %s are %v)", q, d.node(I[0]), len(d.cl.nodes), got, w, limit, fs[0].name, rows)
+		}
+		d.c.Probe("groupby-child-limit")
 	case 0: // single call with optional limit/offset
 		extra := ""
 		w := want
@@ -614,16 +654,22 @@ func (d *db) checkTopNN(op simrt.Op) {
 	}
 	counts := map[uint64]uint64{}
 	var sorted []uint64
+	rowsInShard := map[uint64]int{}
 	for r, m := range f.bits {
 		n := uint64(0)
+		inShard := map[uint64]bool{}
 		for c := range m {
 			if filt == nil || filt[c] {
 				n++
+				inShard[c/pilosa.ShardWidth] = true
 			}
 		}
 		if n > 0 {
 			counts[r] = n
 			sorted = append(sorted, n)
+		}
+		for sh := range inShard {
+			rowsInShard[sh]++
 		}
 	}
 	sort.Slice(sorted, func(i, j int) bool { return sorted[i] > sorted[j] })
@@ -631,8 +677,18 @@ func (d *db) checkTopNN(op simrt.Op) {
 	if n <= 0 {
 		n = 1
 	}
+	nonEmpty := len(sorted)
 	if n < len(sorted) {
 		sorted = sorted[:n]
+	}
+	// TopN(n) takes the n best rows of every shard as candidates and recounts those: when a
+	// shard has more than n rows a globally larger row can lose every per-shard cut, so the
+	// exact answer is owed only when every shard's rows all become candidates
+	exact := true
+	for _, k := range rowsInShard {
+		if k > n {
+			exact = false
+		}
 	}
 	q := "TopN(" + f.name
 	if fe != nil {
@@ -655,6 +711,14 @@ func (d *db) checkTopNN(op simrt.Op) {
 	}
 	seen := map[uint64]bool{}
 	for i, p := range pairs {
+		if !exact {
+			if counts[p.ID] != p.Count || seen[p.ID] || (i > 0 && pairs[i-1].Count < p.Count) {
+				d.fail("topn-n", "%s on node %d = %v: entry %d is row %d with count %d; the row holds %d (%d non-empty rows; some shard has more than n rows, so only counts, order and length are judged)", q, d.node(I[0]), pairs, i, p.ID, p.Count, counts[p.ID], nonEmpty)
+				return
+			}
+			seen[p.ID] = true
+			continue
+		}
 		if p.Count != sorted[i] || counts[p.ID] != p.Count || seen[p.ID] {
 			d.fail("topn-n", "%s on node %d = %v: entry %d is row %d with count %d; the row holds %d and the largest counts are %v", q, d.node(I[0]), pairs, i, p.ID, p.Count, counts[p.ID], sorted)
 			return
@@ -662,6 +726,9 @@ func (d *db) checkTopNN(op simrt.Op) {
 		seen[p.ID] = true
 	}
 	d.c.Probe("topn-n-checked")
+	if exact {
+		d.c.Probe("topn-n-exact")
+	}
 }
 
 func (d *db) checkTopN(op simrt.Op) {
